@@ -95,11 +95,19 @@ def reuse_histories(run):
                                   "sys.exit(0 if h.chk_reuse_history(%r, %r, %r) else 1)\n" % (str(__import__("vlib.core").core.VERIF), HARNESS, toast, history, levels), "execution")
 
 
+def cases(tier):
+    """E2 cases: the study tiler stores its tiles in the PyramidIO's default format (= the recorded FileType / Url
+    extension) even when the input image carries another default format; the stored pixel content is checked too."""
+    from props import C08
+    return [C08.TileImage(tier, "F32", "fits", False, imgfmt="npy"), C08.TileImage(tier, "F32", "npy", False, imgfmt="fits")]
+
+
 def check(run):
     run.uses(tp.PyramidIO.__init__, tp.PyramidIO.tile_path, tp.PyramidIO._tile_path_LsYsYX, tp.PyramidIO._tile_path_LXY, tp.PyramidIO.get_path_scheme,
              tb.Builder.__init__, tb.Builder.toast_base, tb.Builder.write_index_rel_wtml, tb.Builder.create_wtml_folder, tft.FitsTiler.tile)
     run.bound(fields="level / x / y as decimal strings of <= 2 digits (symbolic strings); positions n <= 12 for the integer rendering", schemes="L/Y/YX and LXY", formats="png, jpg, npy, fits",
-              histories="fresh, repeated, repeated with override x TAN / TOAST")
+              histories="fresh, repeated, repeated with override x TAN / TOAST",
+              study_tile_format="symbolic image sizes / pixels (as C08), image default format != pyramid default format")
     run.assume("the WWT client expands a URL template by substituting {1} -> level, {2} -> x, {3} -> y (modelled)",
                "the tiling work inside FitsTiler.tile() is replaced by a stub that populates the builder as the real methods do; the WTML is written and parsed by the real wwt_data_formats code in a scratch directory",
                "tile_levels = depth of the deepest populated layer is established by C08 / C09 / C06 for the study, multi-TAN and TOAST writers")
@@ -108,3 +116,5 @@ def check(run):
     for scheme in ("L/Y/YX", "LXY"):
         template_injective(run, scheme)
     reuse_histories(run)
+    from vlib import e2
+    e2.run_cases_parallel(run, __name__)
